@@ -190,6 +190,22 @@ func RoundTrip(c *enum.Ctx, name string, v reflect.Value, strict bool) string {
 			} else if d := gen.Equal(p.Elem(), p2.Elem()); d != "" {
 				c.Fail("decoder-disagrees:"+name, "tlb.Unmarshal and NewDecoder().Unmarshal differ at %s", d)
 			}
+			// a decoder that can resolve libraries: wherever the plain decoder keeps a library cell as it is (cell-typed
+			// fields), so must this one; it may only differ by succeeding where the plain decoder cannot
+			p3 := reflect.New(t)
+			var derr3 error
+			resolver := func(hash tlb.Bits256) (*tb.Cell, error) {
+				lc := tb.NewCell()
+				_ = lc.WriteUint(0xD1CE, 16)
+				return lc, nil
+			}
+			c.Try("panic:Decoder(resolver).Unmarshal:"+name, func() { derr3 = tlb.NewDecoder().WithLibraryResolver(resolver).Unmarshal(cellv, p3.Interface()) })
+			cellv.ResetCounters()
+			if derr3 == nil {
+				if d := gen.Equal(p.Elem(), p3.Elem()); d != "" {
+					c.Fail("resolver-decoder-disagrees:"+name, "a decoder with a library resolver decodes the same cell to a different value at %s", d)
+				}
+			}
 		}
 		return p.Elem(), derr
 	}
